@@ -124,6 +124,17 @@ def merge_rules(R, pfx="C07"):
             for bid in ext:
                 recv = op_local(g_.term(bid)["args"][0])
                 setl |= {recv} | set(ta.ref_of.get(recv, ()))
+            # … into an ordered set: the stored bytes must not depend on the order in which this node learnt the transactions (two replicas
+            # holding the same set as [t1, t2] and [t2, t1] advertise different content hashes for ever) — the union's receiver is a
+            # BTreeSet, or the list is sorted before it is stored
+            unordered = [r for r in setl if "BTreeSet" not in tx.locals.get(str(r), "") and not (ta.ref_of.get(r, set()) and all("BTreeSet" in tx.locals.get(str(x), "") for x in ta.ref_of.get(r, set())))]
+            unordered = [r for r in unordered if "BTreeSet" not in tx.locals.get(str(r), "")]
+            if unordered and pfx.startswith("C09"):      # the order matters for convergence to one advertised content hash (C09), not for "the set only grows" (C07)
+                sorts = [c for c in tx.calls if (c["ncallee"] or "").split("::")[-1] in ("sort", "sort_unstable", "sort_by", "sort_by_key", "sort_unstable_by")]
+                if not sorts:
+                    oku = False
+                    R.viol(pfx + ".tx.union", "union-unordered", "the united transaction set is built in a %s: the stored bytes depend on the order of arrival, not only on the set" %
+                           (tx.locals.get(str(unordered[0]), "?").replace("&mut ", "").split("<")[0].split("::")[-1] or "list"), tx, tx.lines[0])
             chain = receiver_chain_calls(tx, op_local(vals[0][2]), stop=setl)
             cut_ = [n for n in chain if any(n.endswith(x) or (x + "<") in n for x in DROPPING_ADAPTORS)]
             if cut_:
@@ -132,6 +143,41 @@ def merge_rules(R, pfx="C07"):
         if not oku and not any(v.rule == pfx + ".tx.union" for v in R.violations):
             R.viol(pfx + ".tx.union", "local-union", "the stored set is not the union (BTreeSet::extend) of validated input and get_local_transactions", tx, tx.lines[0])
         R.inst(pfx + ".tx.union", "K6 flows-to", "stored = validated ∪ local (BTreeSet, order/duplication independent)", len(ext), oku)
+        # once a verified transaction for this key exists, Ok is answered only after the union went to the store: an early
+        # `return Ok(())` between the read of the local set and put_local_record acknowledges transactions that are then forgotten.
+        # Legitimate ways round the write: nothing verified (`first()` is None / the set is empty); everything *delivered* is already
+        # held (a subset test whose iterated side is the validated input, not the local set).
+        from cfg import cfg_of as _cfg
+        g_ = _cfg(tx)
+        puts = set(CallSink(PUT).blocks(tx)) if not pfx.startswith("C04") else None      # C04 is about keys, not about what is acknowledged
+        # what the local set is (plain value flow, not what it is later poured into) / how an iterator leads back to its collection
+        locs_t = Taint(tx, extra_transparent=[PV + "get_local_transactions::{closure#0}"]).closure(loc) if loc else set()
+        ITERS = ["*::iter", "*::into_iter", "*::iter_mut", "*IntoIterator>::into_iter", "*::by_ref", "*::as_slice", "*::deref"]
+        SETS = ["alloc::collections::btree::set::BTreeSet", "*BTreeSet<T, A>", "*BTreeSet<T,A>", "alloc::vec::Vec", "*Vec<T, A>", "core::slice::<impl [T]>"]
+        nonempty = [CallGuard([x + "::first" for x in SETS] + [x + "::last" for x in SETS], ("Some",), "a verified transaction exists"),
+                    CallGuard([x + "::is_empty" for x in SETS], ("false",), "the verified set is not empty")]
+        held = CallGuard(["*core::iter::traits::iterator::Iterator>::all", "core::iter::traits::iterator::Iterator::all", "*BTreeSet<T, A>::is_subset", "alloc::collections::btree::set::BTreeSet::is_subset"],
+                         ("false",), "not everything delivered is already held",
+                         arg_pred=lambda b_, blk, t: not (backward(tx, op_local(t["args"][0]), extra=ITERS) & locs_t))
+        cut_ = set()
+        nsite = 0
+        for gd in nonempty + [held]:
+            n_, _acc, rej_ = gd.edges(tx)
+            nsite += n_
+            cut_ |= set(rej_)
+        okret = set(RetSink("Ok").blocks(tx))
+        badr = g_.reach((0,), cut=cut_, avoid=puts or set()) & okret if puts is not None else set()
+        oks_ = bool(puts) and bool(okret) and not badr
+        if puts is None:
+            pass
+        elif not puts:
+            R.viol(pfx + ".tx.stored", "effect-missing:put_local_record", "validate_merge_and_store_transactions never stores", tx, tx.lines[0])
+        elif badr:
+            p_ = g_.path((0,), badr, cut=cut_, avoid=puts)
+            R.viol(pfx + ".tx.stored", "acknowledged-unstored", "validate_merge_and_store_transactions can answer Ok although a verified transaction was delivered and the "
+                   "union was not handed to put_local_record (for a reason other than: nothing verified; everything delivered already held)", tx, None, trace=g_.lines(p_))
+        if puts is not None:
+            R.inst(pfx + ".tx.stored", "K5 must-follow (enumerated exits)", "Ok after a verified transaction ⇒ the union was stored", len(okret), oks_, {"exit_guard_sites": nsite})
         TXV = R.body(pfx + ".tx.sig", TX + "::verify")
         if TXV is not None:
             R.must_call(pfx + ".tx.sig", TX + "::verify", ["blsttc::PublicKey::verify"], "Transaction::verify checks the owner's BLS signature")
